@@ -157,6 +157,26 @@ def _make_threading_shim(div: float):
     return shim
 
 
+_ALL_IMPORTED = [False]
+
+
+def import_all_sdk_modules():
+    """Import every module of the SDK package once (done in the parent, so forked children inherit them)."""
+    if _ALL_IMPORTED[0]:
+        return
+    import importlib
+    import pkgutil
+
+    import aws_durable_execution_sdk_python as _pkg
+
+    for mi in pkgutil.walk_packages(_pkg.__path__, _pkg.__name__ + "."):
+        try:
+            importlib.import_module(mi.name)
+        except Exception:  # noqa: BLE001, S112
+            continue
+    _ALL_IMPORTED[0] = True
+
+
 def install_clock(clock, poll_div: float) -> dict:
     """Rebind the wall clock seen by the SDK modules to the virtual clock, and divide polling timeouts."""
     import aws_durable_execution_sdk_python.concurrency.executor as m_exec
@@ -168,13 +188,19 @@ def install_clock(clock, poll_div: float) -> dict:
 
     report = {"time": 0, "datetime": 0, "queue": 0, "threading": 0}
     tshim = _TimeShim(clock)
-    for m in (m_exec, m_models, m_exc, m_state):
-        if isinstance(getattr(m, "time", None), types.ModuleType):
+    dshim = _make_datetime_shim(clock)
+    # every SDK module that refers to the time / datetime *modules* sees the virtual clock (whichever modules those are in
+    # the tree under check)
+    import aws_durable_execution_sdk_python as _pkg
+
+    import_all_sdk_modules()
+    for name, m in list(sys.modules.items()):
+        if m is None or not name.startswith(_pkg.__name__):
+            continue
+        if getattr(m, "time", None) is _time:
             m.time = tshim
             report["time"] += 1
-    dshim = _make_datetime_shim(clock)
-    for m in (m_susp, m_ls):
-        if isinstance(getattr(m, "datetime", None), types.ModuleType):
+        if getattr(m, "datetime", None) is _dt:
             m.datetime = dshim
             report["datetime"] += 1
     if poll_div and poll_div != 1:
